@@ -503,7 +503,7 @@ func init() {
 		c.Run.Set("subsets", int64(limit))
 		c.Run.Set("evaluations", evals)
 		c.Run.Set("distinct_nontrivial", nontrivial)
-		c.Run.Set("rule", fmt.Sprintf("%s of %d element-hiding rules and exceptions (generic, negated, multi-domain, wildcard TLD, duplicate selectors, self-excluding domains) in two line orders x %d hostnames x all 8 flag triples, through CosmeticEngine.Match and Engine.GetCosmeticResult, against CosmeticRule.Match over all rules; non-trivial = some host has a non-empty expected result", map[bool]string{false: "every subset of at most 5", true: "every subset"}[c.Thorough()], n, len(c15Hosts)))
+		c.Run.Set("rule", fmt.Sprintf("%s of %d element-hiding rules and exceptions (generic, negated, multi-domain, wildcard TLD, duplicate selectors, self-excluding domains) in two line orders x %d hostnames x all 8 flag triples, through CosmeticEngine.Match and Engine.GetCosmeticResult, against CosmeticRule.Match over all rules, which is itself compared with the domain lists as written in the rule texts; corpus layer: the element-hiding rules of the bundled lists against CosmeticRule.Match over all of them for a stride of recorded host names and rule domains; non-trivial = some host has a non-empty expected result", map[bool]string{false: "every subset of at most 5", true: "every subset"}[c.Thorough()], n, len(c15Hosts)))
 		c.Run.Set("exhaustive", exhaustive)
 		c.Run.Assumption("result buckets are compared as sets of selectors")
 		c.Run.Assumption("CosmeticRule.Match is the definition of 'applies to the hostname'; it is itself compared with the domain list as written in the rule text (restricted wins, then permitted, wildcard TLD through the public suffix list)")
